@@ -392,7 +392,7 @@ pub fn gen_c12(tier: &str, rng: &mut Rng, w: &mut dyn Write) {
             }
         }
     }
-    // offsuit: all 3^12 patterns for every rank pair in the thorough tier; a seeded 5,000 per pair for three pairs in quick,
+    // offsuit: thorough = all 3^12 patterns for two rank pairs and a seeded 5,000 for each other pair; quick = a seeded 3,000 for three pairs,
     // plus every pattern with at most two deviations from "all present with weight a"
     let mut off_pairs: Vec<(usize, usize)> = vec![];
     for x in 0..13 {
@@ -402,7 +402,8 @@ pub fn gen_c12(tier: &str, rng: &mut Rng, w: &mut dyn Write) {
     }
     for (i, (x, y)) in off_pairs.iter().enumerate() {
         let cs = pair_combos(*x, *y, false);
-        if thorough {
+        if thorough && (i == 0 || i == off_pairs.len() - 1) {
+            // all 3^12 patterns for the first and the last offsuit rank pair (AKo, 32o)
             for pat in 0..531441 {
                 emit_range_ops(w, &pattern_entries(&cs, pat, &[]));
             }
@@ -415,8 +416,8 @@ pub fn gen_c12(tier: &str, rng: &mut Rng, w: &mut dyn Write) {
                     emit_range_ops(w, &pattern_entries(&cs, pat, &[]));
                 }
             }
-            if i % 26 == 0 {
-                for _ in 0..3000 {
+            if thorough || i % 26 == 0 {
+                for _ in 0..(if thorough { 5000 } else { 3000 }) {
                     emit_range_ops(w, &pattern_entries(&cs, rng.below(531441) as usize, &[]));
                 }
             }
